@@ -8,7 +8,7 @@ unset GOSUMDB
 [ "$GOTOOLCHAIN" = local ] && export GOTOOLCHAIN=auto
 mkdir -p ../.build
 for d in c[0-9][0-9]; do
-  [ -f "$d/spec.json" ] || continue
+  grep -q "\"ready\": true" "$d/spec.json" 2>/dev/null || continue
   go test -c -vet=off -tags verif -o ../.build/$d.test ./$d || exit 1
 done
 git -C /repo checkout -- go.sum 2>/dev/null || true
